@@ -239,8 +239,10 @@ def opFshobst (req : J) : J :=
         let occ := match d.get? "occluders" with | some (J.arr l) => l.filterMap occOf | _ => []
         let hasPos := match d.get? "has_position" with | some (J.bool b) => b | _ => false
         match (h.get? "sun").bind v3Of, (h.get? "ndot").bind jnum? with
-        | some sun, some nd => jr (sunlitFraction hasPos nd origins sun occ)
-        | some sun, none => jr (sunlitFraction false 0 origins sun occ)
+        | some sun, some nd =>
+          let br := sunlitBracket hasPos nd origins sun occ
+          J.arr [jr (sunlitFraction hasPos nd origins sun occ), jr br.1, jr br.2]
+        | some sun, none => J.arr [jr (sunlitFraction false 0 origins sun occ), J.ofNat 1, J.ofNat 1]
         | _, _ => J.null
       | none => J.null)
     J.obj [("window", (w.get? "window").getD J.null), ("n_hours", J.ofNat ins.length),
